@@ -53,6 +53,7 @@ var commands = map[string]command{
 	"selfcert-replay":     selfcertReplay,
 	"hash-replay":         hashReplay,
 	"chain-replay":        chainReplay,
+	"client-replay":       clientReplay,
 }
 
 func main() {
